@@ -19,7 +19,7 @@ for p in $props; do
     nb=1; grep -q '^# bounded' "$patch" && nb=
     out=$(VERIF_NO_BOUNDED=$nb "$here/bin/govc" -repo "$scratch/repo" -specs "$here/specs" -evdir "$scratch/ev" check "$p" quick 2>&1)
     code=$?
-    if [ $code -eq 1 ] && echo "$out" | grep -q "failed obligation .*$expect"; then
+    if [ $code -eq 1 ] && echo "$out" | grep "^failed obligation\|^bounded stand-in" | grep -qF "$expect"; then
       echo "selftest ok   $p $(basename "$patch"): fails $expect"
     else
       echo "SELFTEST-MISS $p $(basename "$patch"): exit $code, expected failing obligation $expect"
